@@ -103,7 +103,7 @@ PROPS.update({
     "C06": {"prop_file": "props/C06.v", "scenarios": [{"name": "merge-c06"}],
             "rule": "0..8 sources over a shared key pool with forced overlap patterns (disjoint, identical, chains, random), empty sources, each source written with its own file configuration; values tagged with their source; order-revealing merge function (concatenation) logging every call, and merge functions failing at a chosen call; non-trivial = >= 2 sources and >= 2 entries, distinct by the source files",
             "trusted": ["sources are modelled by the entry lists their files hold (C01)", "BinaryHeap::pop returns the maximum of a strict total order (std)"], "assumptions": [],
-            "not_proved": ["C06_merge on the executable Merger.merge_run (ascending union, one call per key with values in source order): proved on the abstract merger of design-notes/Merge_probe.v; the link heap-list model -> abstract merger is validated by execution (outputs and call sequences), not yet proved"]},
+            "not_proved": ["C06_merge_is_calls + C06_calls + C06_output + C06_failure are the full statement on the executable transcription of merger.rs; a source is modelled by the entry list its cursor yields (justified by C01/C03; cursor I/O errors inside the merger are C12); the final clause (streaming into a writer) is the composition with C01_roundtrip on the strictly ascending output and is exercised, not separately stated; BinaryHeap::pop is modelled as removing the least element of a list"]},
     "C07": {"prop_file": "props/C07.v", "scenarios": [{"name": "sorter-c07", "timeout": 1200}],
             "rule": "hook-driven budgets 64..4096+, initial capacity 16..budget, max_nb_chunks 0..5, stable/unstable, sequential/parallel (rayon), chunk codecs, chunk index levels 0..2 and block sizes 32..8192, instrumented in-memory chunk storage; 0..400 inserts over a small key pool (heavy duplication) with entry sizes from empty to 3x the budget; all three output paths; non-trivial = at least two chunk creations, distinct by configuration+inserts",
             "trusted": ["sort_by_key / sort_unstable_by_key / rayon par_sort* contracts (sorted permutation, stable for Stable, for every schedule)", "chunk files are modelled by the entry lists they hold (C01)"], "assumptions": ["unstable algorithm is compared under a commutative merge function (sorted bytes of all values)"],
@@ -187,7 +187,7 @@ MANIFEST_TEXT.update({
     "C03": _mt("Proved on the executable model for any index depth (C03_step, C03_history): on every well-formed store the cursor refines the abstract cursor Fresh|At i|Unspec — after ANY history first/last/seeks return the specified entry, next/prev step to the neighbour, current is the last returned entry, and the per-level block cache stays coherent (the invariant the D2 defect broke); composed with the writer invariant, the same holds on every file the writer model finishes from a non-empty ascending input, with the abstract cursor running over the inserted entries themselves (C03_written_file_history); plus in-block moves as index moves and the structural lemmas. Every run: random multi-cursor histories with results, per-operation block loads and the fingerprint of every cached block compared between implementation and model after every step, results compared with the abstract cursor wherever it specifies them; the D2 replay runs first.", "DESIGN.md §5 C03", "Axiom: functional_extensionality_dep (stdlib)." + _PARTIAL, "Rocq proof (refinement to an abstract cursor by a cache-coherence invariant over operation histories) + state-level implementation/model correspondence on operation histories + abstract-cursor oracle"),
     "C04": _mt("Proved on the executable models for all bounds (C04_range, C04_rev_range, C04_written_range, C04_written_rev_range): on every well-formed store of any index depth, and on every file the writer model finishes from a non-empty ascending input, the forward range iterator collects up to its first None exactly the filter of the content by both bounds in ascending order, the reverse iterator exactly its reverse — by composing the cursor refinement with a scan lemma (sortedness turns the first-match seek and the stop-at-first-failure into filters). Every run: ranges over all bound-kind pairs (equal, inverted, absent, present bounds), forward and reverse, through implementation, model and specification.", "DESIGN.md §5 C04", "Axioms: none." + _PARTIAL, "Rocq proof (iterator = filter, over the cursor refinement and the writer invariant) + implementation/model/specification differential execution"),
     "C05": _mt("Proved for all byte strings: advance_key returns None exactly for all-0xFF prefixes and otherwise the exclusive upper end of the interval of keys sharing the prefix (C05_advance_key_spec); and on the executable models (C05_prefix, C05_rev_prefix, C05_written_prefix, C05_written_rev_prefix) the forward prefix iterator collects, up to its first None, exactly the entries whose key starts with the prefix in ascending order and the reverse iterator exactly their reverse, on every well-formed store and on every file the writer model finishes from a non-empty ascending input (the reverse one uses that a failed lower-or-equal seek leaves current() on an entry above the probe: R_le_none). Every run: prefixes of every class (empty, 0xFF runs, successor stored, longer than every key) forward and reverse through implementation, model and specification.", "DESIGN.md §5 C05", "Axioms: none." + _PARTIAL, "Rocq proof (induction on the prefix: carry loop, prefix interval; iterator = filter over the cursor refinement and the writer invariant) + implementation/model/specification differential execution"),
-    "C06": _mt("Proved on the executable model: heap pops remove exactly one element, which sources enter the heap, empty sources yield nothing without a merge call. The full merge theorem is proved on the abstract merger (design-notes). Every run: outputs, the exact sequence of (key, values) the merge function receives, failures of the merge function, and the file produced through a writer, for implementation vs model, plus the three defining clauses evaluated on the implementation's output.", "DESIGN.md §5 C06", "Axioms: none." + _PARTIAL, "Rocq proof (heap lemmas; abstract merge theorem) + implementation/model differential execution with call logging"),
+    "C06": _mt("Proved on the executable transcription of merger.rs for any number of strictly ascending sources and any merge function (C06_merge_is_calls, C06_calls, C06_output, C06_failure): the heap-based merger equals the application of the merge function to a call sequence whose keys are strictly ascending, are exactly the union of the sources' keys, and each carry exactly that key's values in source order — one call per key with consecutive ordinals, the first failing call deciding the result; by a refinement from the heap (pop least (key, index), pop equal keys, push advanced cursors) to an index-ordered abstract merge, plus the heap lemmas. Every run: outputs, the exact sequence of (key, values) the merge function receives, failures of the merge function, and the file produced through a writer, for implementation vs model, plus the three defining clauses evaluated on the implementation's output.", "DESIGN.md §5 C06", "Axioms: none." + _PARTIAL, "Rocq proof (refinement of the heap merger to an abstract index-ordered merge; induction on the total remaining length) + implementation/model differential execution with call logging"),
     "C07": _mt("Proved on the executable model: the sort step is a sorted permutation. The spill/merge independence is proved on the abstract model (design-notes). Every run: all three output paths of the real sorter under tiny budgets (hundreds of spills and chunk merges per case), both algorithms, rayon on/off, equal to the model and to sort-and-merge of the inserts.", "DESIGN.md §5 C07", "Axioms: none." + _PARTIAL, "Rocq proof (sort lemmas; abstract chunk-merge theorem) + implementation/model/specification differential execution"),
     "C08": _mt("Proved for unbounded insert sequences (C08_bounds, C08_volume): under 64 <= T < 2^64, capacity <= T, M >= 1 and entries <= T/4 every insert succeeds, the unspilled volume stays <= 2T (T without realloc), at most M+2 chunks are alive, every chunk comes from the creator. Every run: buffer triple and chunk count after every insert equal to the model, creator calls equal, live-chunk peak <= model.", "DESIGN.md §5 C08", "Axioms: none. Complete for the numeric model; its tie to sorter.rs is the per-insert comparison." + _PARTIAL, "Rocq proof (invariant by induction over inserts, doubling-loop termination) + per-insert state correspondence"),
     "C17": _mt("Proved (partial by nature): the buffer invariant (16-byte granularity, bounds and data regions disjoint, n <= L/16) is preserved by every insert of any size, fits/remaining never underflow, the doubling loop terminates for every usize size, allocation sizes are the rounded sizes. Every run: overflow-checked build, buffer triple compared after every insert, tracking allocator checks dealloc layouts, chunk leak counter.", "DESIGN.md §5 C17", "Axioms: none. Not expressible: aliasing/lifetime soundness of unsafe code, allocator behaviour." + _PARTIAL, "Rocq proof (arithmetic invariant) + overflow-checked differential execution + layout-tracking allocator"),
